@@ -75,7 +75,7 @@ func (k Keeper) RequestModuleService(
 		pds[i] = pd
 	}
 
-	_, totalPrices, _, err := k.FilterServiceProviders(
+	filtered, _, _, err := k.FilterServiceProviders(
 		ctx,
 		requestContext.ServiceName,
 		pds,
@@ -87,7 +87,9 @@ func (k Keeper) RequestModuleService(
 		return err
 	}
 
-	if err := k.DeductServiceFees(ctx, consumer, totalPrices); err != nil {
+	// charge exactly the fees the new requests record (discounted prices)
+	totalFees := k.GetTotalServiceFees(ctx, requestContext.ServiceName, filtered, requestContextConsumer)
+	if err := k.DeductServiceFees(ctx, consumer, totalFees); err != nil {
 		return err
 	}
 
